@@ -194,6 +194,55 @@ def constructor_field_terms(ctx, adt):
     return out
 
 
+def rebuilt_like_constructor(ctx, adt, fld, v):
+    """clear() may rebuild a configuration field the way the constructor built it, from the configuration it still holds:
+    `*self = Self::with_params(self.w, self.d, hasher.clone())` stores builder = new(self.w, self.d, self.builder.buildhasher).
+    True iff v is the constructor's term for `fld` with every constructor parameter replaced by a term that still holds that
+    parameter's value: self.g where the constructor stores exactly that parameter into g, or the part of the old `fld` into which
+    the (crate-local) function that built it stores exactly that argument."""
+    selfp_ = ("param", 1, "self")
+    ctor = constructor_field_terms(ctx, adt)
+
+    def unify(pat, t, m):
+        if pat[0] == "param":
+            k = pat[1]
+            if k in m and m[k] != t:
+                return False
+            m[k] = t
+            return True
+        if not isinstance(pat, tuple) or not isinstance(t, tuple) or len(pat) != len(t):
+            return pat == t
+        for a, b in zip(pat, t):
+            if isinstance(a, tuple) and isinstance(b, tuple):
+                if not unify(a, b, m):
+                    return False
+            elif a != b:
+                return False
+        return True
+    for ct in ctor.get(fld, ()):
+        m = {}
+        if not unify(ct, v, m):
+            continue
+        ok = True
+        for k, t in m.items():
+            held = False
+            # self.g with the constructor storing parameter k into g
+            if t[0] == "field" and t[1] == selfp_ and any(x[0] == "param" and x[1] == k for x in ctor.get(t[2], ())):
+                held = True
+            # a part of the old value of this very field: ct = f(.., param k at position i, ..) and f stores its i-th parameter there
+            if not held and t[0] == "field" and t[1] == ("field", selfp_, fld) and ct[0] == "call" and ctx.prog.fn(ct[1]) is not None:
+                pos = [i for i, x in enumerate(ct[2]) if x[0] == "param" and x[1] == k]
+                g = ctx.prog.fn(ct[1])
+                rg = TermBuilder(g, ctx.prog).return_term()
+                if len(pos) == 1 and rg[0] == "adt":
+                    inner = dict(rg[3]).get(t[2])
+                    held = inner is not None and inner[0] == "param" and inner[1] == pos[0] + 1
+            ok = ok and held
+        if ok and m:
+            return True
+    return False
+
+
 def run(ctx):
     structures = run_clear_rules(ctx)
     run_clone_rules(ctx, structures)
@@ -254,6 +303,8 @@ def run_clear_rules(ctx, only_adt=None, floor=10):
                 continue
             v = w.get("value")
             same = v is not None and (v == ("field", selfp_, fld) or (v[0] == "adt" and not v[3]))
+            if not same and v is not None:
+                same = rebuilt_like_constructor(ctx, adt, fld, v)
             ctx.check(same, "R19-clear-keeps-config", "%s:%s" % (adt, fld), w["span"],
                       "clear() stores `%s` back unchanged" % fld,
                       "%s::clear() overwrites the configuration field `%s` with %s: the cleared structure no longer has the configuration it was built with"
